@@ -27,6 +27,11 @@ void *memmem(const void *h, size_t hn, const void *nd, size_t nn) {
 	}
 	return ((void *)0);
 }
+size_t strnlen(const char *s, size_t maxlen) {
+	size_t i = 0;
+	while (i < maxlen && s[i] != 0) i++;
+	return (i);
+}
 void explicit_bzero(void *s, size_t n) {
 	unsigned char *p = (unsigned char *)s;
 	for (size_t i = 0; i < n; i++) p[i] = 0;
